@@ -46,7 +46,7 @@ TARGETS = [
     "sigma.processing.transformations.base:FieldMappingTransformationBase.apply",
 ]
 BOUNDS = {
-    "structure": "8 correlation types x 1..3 referenced rules (first: single-condition / two-condition / nested correlation; others: single / two-condition) x group-by (none, [user], [user, ip], alias) x generate x field-mapping pipeline x sub-query finalisation x typing templates",
+    "structure": "8 correlation types x 1..3 referenced rules (first: single-condition / two-condition / nested correlation; others: single / two-condition) x group-by (none, [user], [user, ip], alias) x generate x field-mapping pipeline (unconditional; LSC=1: bound to a logsource rule condition) x sub-query finalisation x typing templates",
     "condition": "8 types x 6 operators x 3 counts x percentile",
     "timespan": "7 units x 4 counts x 3 rendering modes; SigmaCorrelationTimespan on every string of length <= 3 (quick) / 4 (thorough) over a 12-character alphabet (digits incl. a non-ASCII digit, units, sign, space, other letters)",
     "extended conditions": "18 expressions over 3 rule names x temporal / temporal_ordered x with / without explicit rules list",
@@ -103,6 +103,17 @@ PIPE = {
     "transformations": [{"id": "map", "type": "field_name_mapping", "mapping": {"user": "musr", "ip": "mip", "fA": "mA", "amount": "mamount"}}],
     "postprocessing": [{"type": "embed", "prefix": "F[", "suffix": "]", "rule_conditions": [{"type": "is_sigma_rule"}]}],
 }
+
+
+def pipe_dict():
+    d = copy.deepcopy(PIPE)
+    if P("LSC", 0):
+        # the field mapping is bound to the log source of the rules: a correlation rule matches through the
+        # rules it refers to (also through nested correlation rules)
+        d["transformations"][0]["rule_conditions"] = [{"type": "logsource", "category": "c"}]
+    return d
+
+
 UUIDS = ["00000000-0000-0000-0000-00000000000%d" % i for i in range(8)]
 
 
@@ -180,7 +191,7 @@ def expected_elements(docs, kinds, gb, gen, pipe, finalize, typing, tsmode, ctyp
     # every referenced rule converted on its own (fresh backend, fresh collection with what it needs)
     own = []
     for i, k in enumerate(kinds):
-        b = cls(ProcessingPipeline.from_dict(copy.deepcopy(PIPE)) if pipe else None)
+        b = cls(ProcessingPipeline.from_dict(pipe_dict()) if pipe else None)
         sub = [copy.deepcopy(d) for d in docs if d["title"] in (("leaf", "r" + "abc"[i]) if k == 2 else ("r" + "abc"[i],))]
         coll = SigmaCollection.from_dicts(sub)
         b.convert(coll)
@@ -198,7 +209,7 @@ def check_structure(ti, kinds, gb, gen, pipe, finalize, typing) -> bool:
     docs = build(ctype, kinds, gb, gen)
     own, mp = expected_elements(docs, kinds, gb, gen, pipe, finalize, typing, 0, ctype, "gte", 2, "5m", None)
     cls = corr_backend_class(finalize, typing, 0)
-    b = cls(ProcessingPipeline.from_dict(copy.deepcopy(PIPE)) if pipe else None)
+    b = cls(ProcessingPipeline.from_dict(pipe_dict()) if pipe else None)
     coll = SigmaCollection.from_dicts(copy.deepcopy(docs))
     out = b.convert(coll)
     corr_rule = [r for r in coll.rules if r.title == "corr"][0]
@@ -264,7 +275,7 @@ def check_condition(ti, oi, ci, pipe) -> bool:
     ctype, op, count = TYPES[ti], OPS[oi], COUNTS[ci]
     docs = build(ctype, [0], 0, False, op=op, count=count, pct=(50 if ci == 0 else None))
     cls = corr_backend_class(False, False, 2)
-    b = cls(ProcessingPipeline.from_dict(copy.deepcopy(PIPE)) if pipe else None)
+    b = cls(ProcessingPipeline.from_dict(pipe_dict()) if pipe else None)
     coll = SigmaCollection.from_dicts(docs)
     b.convert(coll)
     q = [r for r in coll.rules if r.title == "corr"][0].get_conversion_result()[0]
@@ -480,6 +491,8 @@ def c10b_concrete(ti: int, kinds_csv: str, gb: int, gen: bool, pipe: bool, final
 
 OBLIGATIONS = (
     [Ob("c10b_structure", {"TYPE": t}, 900) for t in range(8)]
+    + [Ob("c10b_structure", {"TYPE": t, "LSC": 1}, 900) for t in (1, 2)]
+    + [Ob("c10b_structure", {"TYPE": t, "LSC": 1}, 1800, tier="thorough") for t in (0, 3, 4, 5, 6, 7)]
     + [Ob("c10c_condition", {}, 600), Ob("c10a_timespan", {}, 300), Ob("c10d_extended", {}, 300)]
     + [Ob("c10a_timespan_text", {"LEN": 3}, 600)]
     + [Ob("c10a_timespan_text", {"LEN": 4}, 3000, tier="thorough")]
